@@ -350,6 +350,46 @@ func registerOperatorBuiltins() {
 		}
 		return boolVal(and(or(alts...), not(eq(v.pay(), "0"))))
 	}
+	specBuiltins["unshared"] = func(e *SpecEnv, n ECall) Val {
+		// unshared(op): every slice, pointer, map and interface field of the operator object is nil or
+		// was allocated during this call (its attribute state aliases nothing that existed before)
+		v := e.eval(n.Args[0])
+		x := e.x
+		freshOrNil := func(r string) string {
+			return or(eq(r, "0"), and(sx(">=", r, e.allocOld), sx("<", r, x.alloc(e.st))))
+		}
+		var cases []string
+		for _, im := range x.prog.operatorImpls() {
+			pt, ok := im.ptr.Underlying().(*types.Pointer)
+			if !ok {
+				continue
+			}
+			st, ok := pt.Elem().Underlying().(*types.Struct)
+			if !ok {
+				continue
+			}
+			var facts []string
+			for k := 0; k < st.NumFields(); k++ {
+				ft := st.Field(k).Type()
+				lo, _ := fieldRange(st, k)
+				fv := x.load(e.st, Addr{Prefix: "F$" + typeKey(pt.Elem()), Lo: lo, Ref: v.pay(), T: ft})
+				switch u := ft.Underlying().(type) {
+				case *types.Slice:
+					facts = append(facts, freshOrNil(fv.base()))
+				case *types.Pointer, *types.Map:
+					facts = append(facts, freshOrNil(fv.C[0]))
+				case *types.Interface:
+					facts = append(facts, freshOrNil(fv.pay()))
+				default:
+					_ = u
+				}
+			}
+			if len(facts) > 0 {
+				cases = append(cases, implies(eq(v.tag(), x.typeTag(im.ptr)), and(facts...)))
+			}
+		}
+		return boolVal(and(cases...))
+	}
 	specBuiltins["funcid"] = func(e *SpecEnv, n ECall) Val {
 		s, ok := n.Args[0].(EStr)
 		if !ok {
